@@ -62,7 +62,8 @@ def check_partition(p, s1, s2, k, ctx, base, tag):
     if A.shape != (n, n):
         ctx.violation("C10/%s/adjacency" % tag, "adjacency matrix has shape %r for %d points" % (A.shape, n), **base)
         return False
-    dm = np.sqrt(((D[:, None, :] - D[None, :, :]) ** 2).sum(-1))
+    Df = D.astype(float)  # D may carry an integer dtype (typed batches): squared differences must not wrap
+    dm = np.sqrt(((Df[:, None, :] - Df[None, :, :]) ** 2).sum(-1))
     scale = float(dm.max()) + 1e-300
     for i in range(n):
         row = A[i]
@@ -153,7 +154,8 @@ def run_pair(case, ctx):
         ctx.count("pairs_cross_duplicates")
         cross = True
     D = np.asarray(p.D)
-    dm = np.sqrt(((D[:, None, :] - D[None, :, :]) ** 2).sum(-1))
+    Df_ = D.astype(float)
+    dm = np.sqrt(((Df_[:, None, :] - Df_[None, :, :]) ** 2).sum(-1))
     srt = np.sort(dm, axis=1)
     if k < len(D) and (np.abs(srt[:, k] - srt[:, k - 1]) < 1e-12).any():
         ctx.count("pairs_with_distance_ties")
